@@ -173,6 +173,7 @@ def _detect(run, step, files, src, add, tag, sig):
             seq = [f for f in seq if f['name'].endswith(suffix or '.mos.xml')]
         names = [f['name'] for f in seq]
     rv, exc, out, err = _call_main(argv)
+    run.event(run.step_i, 'cli', cmd, src, repr(rv), out.count('\n'), err.count('\n'), type(exc).__name__)
     for f in seq:
         if src != 'files' and f.get('fault'):
             run.s3.get_faults.pop((run.bucket, f['name']), None)
@@ -261,6 +262,7 @@ def _merge(run, step, files, src, add, tag, sig):
         argv += ['-o', outpath]
     fired0 = sum(run.fs.fired.values()) + sum(run.s3.fired.values())
     rv, exc, sout, serr = _call_main(argv)
+    run.event(run.step_i, 'cli', 'merge', src, repr(rv), bool(serr.strip()), type(exc).__name__)
     fired = sum(run.fs.fired.values()) + sum(run.s3.fired.values()) > fired0
     if outpath:
         run.fs.set_fault(outpath, None)
